@@ -29,7 +29,7 @@ class Unsupported(Exception):
 FORCE_FORK = 'F'
 MERGE = 'M'
 
-FEAS_TIMEOUT_MS = 5000
+FEAS_TIMEOUT_MS = 1500
 
 
 def _conjuncts(t):
